@@ -206,6 +206,9 @@ class Pbox(NominalValueMixin, ABC):
         if (not is_increasing(self.left)) or (not is_increasing(self.right)):
             raise Exception("Left and right arrays must be increasing")
 
+        if np.any(self.left > self.right):
+            raise Exception("Left bound must not exceed the right bound at any step")
+
         # pass along moments information
         if (self.mean is None) or (self.var is None):
             self._init_moments()
